@@ -7,11 +7,22 @@ from .. import gen_mut as GM
 ABI = ["i8", "i16", "i32", "i64", "u8", "u16", "u32", "u64", "usize"]
 
 
+# programs whose invalid IR was once emitted or stopped only by the in-process verifier (D41 and relatives)
+TYPER_GAPS = [
+    "struct H\n{\n\tvalues: [2]i32,\n}\nfn main() -> i32\n{\n\tvar h = H { values: [1, 2, 3] };\n\treturn: h.values[0]\n}\n",
+    "struct H\n{\n\tvalues: [2]i32,\n}\nfn main() -> i32\n{\n\tvar x: i32 = 1;\n\tvar h = H { values: [x, 2, 3] };\n\treturn: h.values[0]\n}\n",
+    "struct H\n{\n\tv: i32,\n}\nfn main() -> i32\n{\n\tvar h = H { v: true };\n\treturn: h.v\n}\n",
+    "struct H\n{\n\tv: i32,\n}\nfn main() -> i32\n{\n\tvar b: i64 = 3;\n\tvar h = H { v: b };\n\treturn: h.v\n}\n",
+    "fn main() -> u8\n{\n\tvar a3: [2]i16 = [3964i16, 5152i16];\n\tprint!(a3, \"\\n\");\n\treturn: 0\n}\n",
+    "fn main() -> u8\n{\n\tvar one: []i32 = [];\n\tprint!(one, \"\");\n\treturn: 0\n}\n",
+]
+
+
 def flagged_program(rng, i):
-    g = GP.Gen(random.Random(rng.getrandbits(64)), max_funcs=4)
+    g = GP.Gen(random.Random(rng.getrandbits(64)), level=3, max_funcs=4)
     p = g.program()
     lay = GP.Layout(random.Random(i), plain=True)
-    out, expect = "", {}
+    out, expect = GP.source(dict(structs=p["structs"], consts=p["consts"], funcs=[]), random.Random(i), plain=True), {}
     with_main = rng.random() < 0.8
     for name, params, ret, body, result, _ in p["funcs"]:
         if name == "main" and not with_main: name = "notmain"
@@ -89,6 +100,13 @@ def run(tier):
         others.append(("m%d" % i, text))
     for i, (k, s) in enumerate(GM.stream(rng, 400 if tier == "quick" else 20000)):
         others.append(("x%d" % i, s))
+    # inputs on which the in-process verifier or LLVM itself is known to stop the compiler (listed C02 findings)
+    # and programs that were once accepted with invalid IR: whenever such a program is accepted, its IR must be valid
+    import glob, os
+    for fpath in sorted(glob.glob(os.path.join(C.VERIF, "findings", "C0[1237]-*.pn"))):
+        others.insert(0, ("w" + os.path.basename(fpath), open(fpath, newline="").read()))
+    for j, src in enumerate(TYPER_GAPS):
+        others.insert(0, ("gap%d" % j, src))
     impl2 = C.run_harness("tools", others, ck.work + "/others", timeout=1800)
     impl3 = C.run_harness("tools-wasm", others[: (150 if tier == "quick" else 5000)], ck.work + "/wasm", timeout=1800)
     acc = 0
